@@ -64,7 +64,7 @@ func (b *Bundle) NameFeature(class, role string) {
 	}
 }
 
-var CollisionKinds = []string{"exact", "case", "several", "generatedName", "oaigenTaken", "oaigen1Taken", "paramsBodyTaken", "twoImportsSameName", "caseTwinsInline", "prefixNames", "anonPointerNameTaken", "anonPointerSymbolsKey", "opKeyTwins", "opKeyTwinsWithID", "dupOperationIds", "prefixNamesRemoteRecursive"}
+var CollisionKinds = []string{"exact", "case", "several", "generatedName", "oaigenTaken", "oaigen1Taken", "paramsBodyTaken", "twoImportsSameName", "caseTwinsInline", "prefixNames", "anonPointerNameTaken", "anonPointerSymbolsKey", "opKeyTwins", "opKeyTwinsWithID", "dupOperationIds", "prefixNamesRemoteRecursive", "mangleTwinsInline", "manyMembers", "generatedNamesPresent"}
 
 // KeywordNames: definition and property names that are also keywords of the schema model or words the namer treats specially.
 var KeywordNames = []string{"schema", "not", "anyOf", "oneOf", "allOf", "properties", "items", "additionalProperties", "definitions", "parameters", "responses", "paths", "body", "default", "0"}
@@ -157,6 +157,42 @@ func (b *Bundle) Collision(kind string) {
 			jx.AsObj(body["properties"])["dup"+strconv.Itoa(i)] = b.Obj()
 			op["parameters"] = jx.Arr{jx.Obj{"name": "body", "in": "body", "schema": body}}
 			jx.AsObj(op["responses"])["200"] = jx.Obj{"description": b.lbl("dup"), "schema": jx.Obj{"type": "array", "items": b.Obj()}}
+		}
+	case "mangleTwinsInline":
+		// sibling property names that the name mangler turns into the same word, each holding a complex inline schema:
+		// two names generated in the same pass meet
+		props := jx.Obj{"plain": jx.Obj{"type": "string"}}
+		for _, n := range []string{"foo_bar", "fooBar", "foo-bar", "Foo Bar"}[:2+b.rng.IntN(3)] {
+			props[n] = b.Obj()
+		}
+		use(b.Def("mt"+k, jx.Obj{"type": "object", "description": b.lbl("mt"), "properties": props}))
+		b.Place("codeResponse", jx.Obj{"type": "object", "description": b.lbl("mtr"), "properties": jx.Obj{"a_b": b.Obj(), "aB": b.Obj()}}, "")
+	case "manyMembers":
+		// more than ten members: indices with two digits in keys (allOf/10 sorts before allOf/2 as text)
+		var all, tup jx.Arr
+		for i := 0; i < 12; i++ {
+			if i%5 == 0 {
+				all = append(all, jx.Obj{"$ref": b.Target("localDef", "")})
+				tup = append(tup, jx.Obj{"$ref": b.Target("remoteDef", "")})
+			} else {
+				all = append(all, b.Obj())
+				tup = append(tup, b.Obj())
+			}
+		}
+		use(b.Def("many"+k, jx.Obj{"description": b.lbl("mm"), "allOf": all}))
+		b.Place("codeResponse", jx.Obj{"type": "array", "description": b.lbl("mmt"), "items": tup}, "")
+	case "generatedNamesPresent":
+		// the input already holds definitions named like Flatten's own output, marker included (the output of an earlier run
+		// extended by hand): they are existing definitions
+		op := b.Op(b.newPath(), "get", false)
+		id := "gen" + k
+		op["operationId"] = id
+		jx.AsObj(op["responses"])["200"] = jx.Obj{"description": b.lbl("g"), "schema": b.Obj()}
+		op["parameters"] = jx.Arr{jx.Obj{"name": "body", "in": "body", "schema": b.Obj()}}
+		for _, n := range []string{id + "OKBody", id + "ParamsBody"} {
+			d := b.Obj()
+			d["x-go-gen-location"] = "operations"
+			use(b.Def(n, d))
 		}
 	case "prefixNamesRemoteRecursive":
 		// a root definition whose (mangled) name is a proper prefix of an imported recursive definition's, which is the
